@@ -251,6 +251,60 @@ fn tree_of(vm: &gluon::Thread, name: &str, src: &str) -> Result<String, String> 
     }
 }
 
+/// An operator chain written without parentheses over prelude operators, `#` primitives and
+/// locally defined operators with and without an `#[infix]` attribute, with and without the
+/// implicit prelude: whatever the formatter knows about the operators' fixities, the chain must
+/// come out as written.  (The shared program printer parenthesises every operand.)
+fn gen_chain(t: &mut Tape) -> Value {
+    let no_prelude = t.chance(1, 2);
+    let mut src = String::new();
+    if no_prelude {
+        src.push_str("//@NO-IMPLICIT-PRELUDE\n");
+    }
+    let user_ops = ["+++", "<+>", "|>>", "<=>"];
+    let mut ops: Vec<String> = ["+", "-", "*", "/", "==", "<", "<=", "&&", "||", "<>", "#Int+", "#Int*", "#Int-", "#Int<"].iter().map(|s| s.to_string()).collect();
+    let mut without_attr = false;
+    for (i, op) in user_ops.iter().enumerate() {
+        if t.chance(1, 2) {
+            continue;
+        }
+        if t.chance(2, 3) {
+            src.push_str(&format!("#[infix({}, {})]\n", if t.chance(1, 2) { "left" } else { "right" }, 1 + (i * 3 + t.pick(3)) % 9));
+        } else {
+            without_attr = true;
+        }
+        src.push_str(&format!("let ({}) x y = x\n", op));
+        ops.push(op.to_string());
+    }
+    for v in ["a", "b", "c", "d"] {
+        src.push_str(&format!("let {} = 1\n", v));
+    }
+    src.push_str("let f x = x\n");
+    let operand = |t: &mut Tape| -> String {
+        match t.pick(8) {
+            0 => "1".into(),
+            1 => "(f a)".into(),
+            2 => "f b".into(),
+            3 => "(a, b)._0".into(),
+            _ => ["a", "b", "c", "d"][t.pick(4)].to_string(),
+        }
+    };
+    let n = 2 + t.pick(5);
+    let mut chain = operand(t);
+    for _ in 0..n {
+        let op = ops[t.pick(ops.len())].clone();
+        let rhs = if t.chance(1, 8) {
+            format!("({} {} {})", operand(t), ops[t.pick(ops.len())], operand(t))
+        } else {
+            operand(t)
+        };
+        chain.push_str(&format!(" {} {}", op, rhs));
+    }
+    src.push_str(&chain);
+    src.push('\n');
+    json!({"kind": "gen", "src": src, "style": crate::gen::print::Style::default(), "chain": true, "no_fixity": no_prelude || without_attr})
+}
+
 impl Property for C10 {
     fn id(&self) -> &'static str {
         "C10"
@@ -282,15 +336,23 @@ impl Property for C10 {
         ))
     }
     fn gen(&self, t: &mut Tape, tier: Tier) -> Value {
+        if t.chance(1, 10) {
+            return gen_chain(t);
+        }
         let mut style = style_from(t);
         // comments and long lines are what the formatter has to work on
         if t.chance(1, 2) {
             style.comments = 2 + t.pick(4) as u8;
         }
-        let cfg = GenCfg { max_size: tier.pick(70, 140), hash_only: t.chance(1, 3), ..GenCfg::default() };
+        let hash_only = t.chance(1, 3);
+        // operators whose fixity is unknown when the file is formatted (here: the prelude's, with
+        // the implicit prelude switched off; in practice also operators of modules the formatter
+        // cannot find): the formatter must still print the chain as written
+        let no_fixity = !hash_only && t.chance(1, 5);
+        let cfg = GenCfg { max_size: tier.pick(70, 140), hash_only, ..GenCfg::default() };
         let prog = gen_program(t, cfg);
-        let src = print_program(&prog, style, "");
-        json!({"kind": "gen", "src": src, "style": style})
+        let src = print_program(&prog, style, if no_fixity { "//@NO-IMPLICIT-PRELUDE\n" } else { "" });
+        json!({"kind": "gen", "src": src, "style": style, "no_fixity": no_fixity})
     }
     fn exec(&self, ctx: &mut WorkerCtx, case: &Value) -> Value {
         if ctx.state.is_none() {
@@ -457,6 +519,12 @@ impl Property for C10 {
             j.verdict = Verdict::Known(id);
         }
         j.classes.push(format!("kind:{}", kind));
+        if case["chain"] == true {
+            j.classes.push("operator_chain".into());
+        }
+        if case["no_fixity"] == true && v["src"].as_str().map(|s| s.contains(" + ") || s.contains(" * ") || s.contains(" - ") || s.contains(" == ") || s.contains(" < ")).unwrap_or(false) {
+            j.classes.push("operators_without_known_fixity".into());
+        }
         let changed = out != src;
         if changed {
             j.classes.push("formatter_changed_text".into());
